@@ -31,7 +31,7 @@ BOUNDS = {
 import re
 _SIMPLE = re.compile(r', simple=[01]')
 
-PARENTS = U.PARENTS_EXPR + U.PARENTS_STMT + U.PARENTS_PATTERN
+PARENTS = U.PARENTS_EXPR + U.PARENTS_STMT + U.PARENTS_PATTERN + U.PARENTS_FSTR  # appended last: case ids name the parent by position
 
 
 def shards(tier):
